@@ -20,7 +20,7 @@ struct TLShape {
   int n = 0;
 };
 
-inline int TL_K(bool th) { return th ? 4 : 3; } // max inner containers
+inline int TL_K(bool th) { return th ? 5 : 3; } // max inner containers
 inline int TL_S(bool th) { return th ? 3 : 2; } // max elements each
 
 inline uint64_t tl_nshapes(bool th) {
@@ -206,6 +206,11 @@ static const char* const TL_VARIANTS[] = {
     "TwoLevelIterator<forward_list<forward_list>> stl_two_level_begin/end",
 };
 static const int TL_NVAR = 15;
+// Deliberately absent: stl_two_level_begin over list<vector<int>>.
+// ChooseTwoLevelIterator picks TwoLevelRandIter from the INNER category alone
+// and its compute_dist() calls std::distance on the outer (list) iterators in
+// an order that may be unreachable; exercising it would be undefined
+// behaviour chosen by the harness, not a verdict about a result.
 
 template <class Tag, int Cap, class O>
 void tlA(const std::string& C, const TLShape& s, const std::vector<int>& F) {
@@ -337,71 +342,90 @@ static const Probe PROBES[] = {
      "std::vector<std::vector<S>> v(1); v[0].push_back(S{1}); auto b = "
      "galois::stl_two_level_begin(v.begin(), v.end()); int x = b->f; "
      "(void)x;"},
+    {"InsertBag:const-begin-does-not-compile",
+     "InsertBag::begin() const / end() const",
+     "galois::InsertBag<int> bag; const galois::InsertBag<int>& cb = bag; "
+     "auto i = cb.begin(); (void)i;"},
 };
-static const int NPROBES = 5;
+static const int NPROBES = 6;
 static const char* const PROBE_PRELUDE =
     "#include <tuple>\n#include <vector>\n#include \"galois/FlatMap.h\"\n"
     "#include \"galois/LazyArray.h\"\n#include \"galois/optional.h\"\n"
-    "#include \"galois/TwoLevelIterator.h\"\nstruct S { int f; };\n"
-    "int main() {\n";
+    "#include \"galois/TwoLevelIterator.h\"\n#include \"galois/Bag.h\"\n"
+    "struct S { int f; };\nint main() {\n";
 static const char* const PROBE_CONTROL =
     "galois::flat_map<int,int> m; m[1]=2; auto i = m.lower_bound(1); (void)i;"
     "galois::LazyArray<int,3> a; a.emplace(0,1); int& r = a[0]; (void)r;"
     "galois::optional<int> oa(1); galois::optional<int> ob; ob = oa;"
     "std::vector<std::vector<S>> v(1); v[0].push_back(S{1}); auto b = "
-    "galois::stl_two_level_begin(v.begin(), v.end()); int x = (*b).f; (void)x;";
+    "galois::stl_two_level_begin(v.begin(), v.end()); int x = (*b).f; (void)x;"
+    "galois::InsertBag<int> bag; auto bi = bag.begin(); (void)bi;";
 
-inline bool probe_compile(const std::string& body, std::string& err) {
+struct ProbeRes {
+  bool ok = false;
+  std::string err;
+};
+// compile the control (index 0) and every probe concurrently, once per process
+inline const std::vector<ProbeRes>& probe_all() {
+  static std::vector<ProbeRes> res;
+  if (!res.empty())
+    return res;
   const char* repo = getenv("VERIF_REPO");
   std::string R    = repo ? repo : "/repo";
   std::string base = "/verif/build/tmp/c14-probe-" + std::to_string(getpid());
-  std::string src  = base + ".cpp";
-  FILE* f          = fopen(src.c_str(), "w");
-  if (!f) {
-    err = "cannot write " + src;
-    return false;
+  int n            = NPROBES + 1;
+  res.resize(n);
+  std::vector<FILE*> pipes(n, nullptr);
+  std::vector<std::string> srcs(n);
+  for (int i = 0; i < n; ++i) {
+    srcs[i] = base + "-" + std::to_string(i) + ".cpp";
+    FILE* f = fopen(srcs[i].c_str(), "w");
+    if (!f) {
+      res[i].err = "cannot write " + srcs[i];
+      continue;
+    }
+    fprintf(f, "%s%s\nreturn 0; }\n", PROBE_PRELUDE,
+            i == 0 ? PROBE_CONTROL : PROBES[i - 1].code);
+    fclose(f);
+    std::string cmd =
+        "g++ -std=c++17 -fsyntax-only -w -I/verif/build/gen/include -I" + R +
+        "/libgalois/include -I" + R + "/libsupport/include " + srcs[i] +
+        " 2>&1";
+    pipes[i] = popen(cmd.c_str(), "r");
+    if (!pipes[i])
+      res[i].err = "cannot run g++";
   }
-  fprintf(f, "%s%s\nreturn 0; }\n", PROBE_PRELUDE, body.c_str());
-  fclose(f);
-  std::string cmd = "g++ -std=c++17 -fsyntax-only -w -I/verif/build/gen/include "
-                    "-I" + R + "/libgalois/include -I" + R +
-                    "/libsupport/include " + src + " 2>&1";
-  FILE* p = popen(cmd.c_str(), "r");
-  if (!p) {
-    err = "cannot run g++";
-    return false;
+  for (int i = 0; i < n; ++i) {
+    if (!pipes[i])
+      continue;
+    char line[800];
+    while (fgets(line, sizeof line, pipes[i]))
+      if (res[i].err.empty() && strstr(line, "error"))
+        res[i].err = line;
+    res[i].ok = pclose(pipes[i]) == 0;
+    unlink(srcs[i].c_str());
+    for (auto& ch : res[i].err)
+      if (ch == '\n')
+        ch = ' ';
   }
-  char line[800];
-  err.clear();
-  while (fgets(line, sizeof line, p))
-    if (err.empty() && strstr(line, "error"))
-      err = line;
-  int st = pclose(p);
-  unlink(src.c_str());
-  for (auto& ch : err)
-    if (ch == '\n')
-      ch = ' ';
-  return st == 0;
+  return res;
 }
 
 inline void probe_run(uint64_t idx, bool) {
-  static int control = -1; // per worker process
-  std::string err;
-  if (control < 0)
-    control = probe_compile(PROBE_CONTROL, err) ? 1 : 0;
-  if (!control) {
+  const std::vector<ProbeRes>& res = probe_all();
+  if (!res[0].ok) {
     fprintf(stderr, "c14: compile-probe control did not compile, probes "
                     "skipped: %s\n",
-            err.c_str());
+            res[0].err.c_str());
     return;
   }
   const Probe& p = PROBES[idx];
-  bool ok        = probe_compile(p.code, err);
+  bool ok        = res[idx + 1].ok;
   sx::mark_nontrivial(); // the control compiled, so the probe means something
   sx::outcome(idx * 2 + ok);
   if (!ok)
     sx::fail(p.key, "%s cannot be instantiated: `%s` -> %s", p.what, p.code,
-             err.c_str());
+             res[idx + 1].err.c_str());
 }
 
 } // namespace c14
